@@ -5,6 +5,7 @@ import GixModel.Lemmas.C36Path2
 import GixModel.Lemmas.C36Lead
 import GixModel.Lemmas.C36Mid
 import GixModel.Lemmas.C36Chain
+import GixModel.Lemmas.C36Gen
 /-
 C36 — Wildcard matching agrees with git's wildmatch.  PROPERTY THEOREMS ONLY.
 
@@ -27,9 +28,10 @@ def C36_full : Prop :=
   ∀ (m : Mode) (p t : Bytes), NoNul p → NoNul t → (p.filter (· == 42)).length < 64 →
     C36.wildmatch m p t = Spec.C36.wildmatch (flagsOf m) p t
 
-/-- `C36_full` restricted to what is not excluded by the known deviation (`PatOk`) — stated, not proved
-in general (T1 and T2 below are its star-free and one-star instances; what is missing is two or more
-stars, where gitoxide's NoMatch-for-ABORT_ALL needs the semantic soundness of git's abort codes). -/
+/-- `C36_full` restricted to what is not excluded by the known deviation (`PatOk`). Proved below as
+`full_modulo_icase` (rounds 1–4: the tiers T1, T2, T2+, T4-nopath, T4-path 1–5 are its instances and
+remain as named theorems; the general case rests on `abort_all_sound_general`, the semantic soundness of
+git's abort codes that gitoxide's NoMatch-for-ABORT_ALL needs). -/
 def C36_full_modulo_icase : Prop :=
   ∀ (m : Mode) (p t : Bytes), PatOk m p → NoNul t → (p.filter (· == 42)).length < 64 →
     C36.wildmatch m p t = Spec.C36.wildmatch (flagsOf m) p t
@@ -324,6 +326,57 @@ example : ¬ PathModeOk [42, 42, 47, 98] := by unfold PathModeOk; decide +kernel
 example : C36.wildmatch ⟨true, false⟩ [97, 42, 47, 120, 42, 42, 121, 47, 91, 98, 45, 100, 93, 47, 42, 42]
     [97, 113, 47, 120, 122, 121, 47, 99, 47, 117, 47, 118] = true := by decide +kernel
 
+/-- T4-path, the general case: in path mode (NO_MATCH_SLASH_LITERAL / WM_PATHNAME), for EVERY pattern
+(`PatOk`: NUL-free, and outside the known IGNORE_CASE deviation) with fewer than 64 star bytes and every
+NUL-free text, `wildmatch` gives git's answer — any number of `*`, `**`, `**/` and `**\/` boundary runs
+anywhere, brackets, escapes. The joint induction of `pathmode_eq` with the boundary arms inside
+(`go_rel_bdH` for `**/`, `go_rel_bdE` for `**\/`, where gitoxide makes one extra speculative call that
+git's loop makes first anyway); what git's ABORT_ALL from below a star means is `abort_all_sound_general`. -/
+theorem pathmode_full_eq (m : Mode) (hpm : m.noMatchSlash = true) (p t : Bytes) (hok : PatOk m p)
+    (hcnt : (p.filter (· == 42)).length < 64) (ht : NoNul t) :
+    C36.wildmatch m p t = Spec.C36.wildmatch (flagsOf m) p t := by
+  unfold C36.wildmatch Spec.C36.wildmatch matchRecursive RECURSION_LIMIT
+  have h := go_rel_g m hpm (p.length + 1) 63 p t hok ht p t 0 0 none (by simp) (by simp) (by simp)
+    (by unfold count42; omega) (fun _ => rfl)
+  simp only [Iter.ofSlice]
+  rcases h with h | ⟨h1, h2⟩
+  · rw [h]; cases dowild (flagsOf m) (p.length + 1) none p t <;> rfl
+  · rw [h1]
+    cases hg : go m (p.length + 1) 63 p t ⟨0, p⟩ ⟨0, t⟩ <;> first | rfl | exact absurd hg h2
+
+/-- The carrying statement: in path mode, if git's `dowild(p, t)` returns ABORT_ALL (fuel above the
+pattern length), then `p` matches no suffix of `t` — for every pattern that does not begin with a
+`**/` boundary run; for one that does (`isBnd`), no suffix that is `t` itself or begins right behind a
+`/` (`al`). Brackets, escapes, single stars, `*/`, runs of stars of every kind are covered. -/
+theorem abort_all_sound_general (m : Mode) (hpm : m.noMatchSlash = true) (n : Nat) (prev : Option UInt8)
+    (p t : Bytes) (hp : NoNul p) (ht : NoNul t) (hn : p.length < n)
+    (h : dowild (flagsOf m) n prev p t = .abortAll) (k : Nat) (hal : isBnd prev p = true → al t k) :
+    dowild (flagsOf m) n prev p (t.drop k) ≠ .matched :=
+  dowild_abort_sound_g m hpm n prev p t hp ht hn h k hal
+
+/-- `C36_full_modulo_icase` holds: every mode, every pattern outside the known IGNORE_CASE deviation,
+fewer than 64 star bytes, every NUL-free text. -/
+theorem full_modulo_icase : C36_full_modulo_icase := by
+  intro m p t hok ht hcnt
+  cases hpm : m.noMatchSlash with
+  | true => exact pathmode_full_eq m hpm p t hok hcnt ht
+  | false => exact no_pathmode_eq m hpm p t hok hcnt ht
+
+/-- Without IGNORE_CASE the property holds at full strength (`C36_full` restricted to the two
+case-sensitive modes): every NUL-free pattern with fewer than 64 stars, every NUL-free text. -/
+theorem full_case_sensitive (m : Mode) (hic : m.ignoreCase = false) (p t : Bytes) (hp : NoNul p) (ht : NoNul t)
+    (hcnt : (p.filter (· == 42)).length < 64) :
+    C36.wildmatch m p t = Spec.C36.wildmatch (flagsOf m) p t :=
+  full_modulo_icase m p t ⟨hp, fun h => by rw [hic] at h; cases h⟩ ht hcnt
+
+-- the patterns that were outside `PathModeProved`: a star above a boundary, a bracket in front of one,
+-- a boundary run followed by an escaped slash
+example : C36.wildmatch ⟨true, false⟩ [97, 42, 47, 42, 42, 47, 98] [97, 120, 47, 121, 47, 122, 47, 98] = true := by
+  decide +kernel
+example : C36.wildmatch ⟨true, false⟩ [91, 97, 98, 93, 47, 42, 42, 47, 99] [98, 47, 120, 47, 99] = true := by
+  decide +kernel
+example : C36.wildmatch ⟨true, false⟩ [42, 42, 92, 47, 97] [120, 47, 121, 47, 97] = true := by decide +kernel
+
 /-- What git's ABORT_ALL means (patterns without `**`): no suffix of the text matches either. This is
 the soundness of the abort code that the proof of `multi_star_eq` rests on. It is FALSE for `**/`
 (`**/a/a/a` aborts on `xa/a/a` although it matches the suffix `a/a/a`), which is why the general
@@ -368,6 +421,16 @@ theorem shortcuts_sound (raw : Bytes) (mayAlter : Bool) (pat : Pattern)
     (h : parsePattern raw mayAlter = some pat) (value : Bytes) (m : Mode) :
     pat.matches value m = C36.wildmatch m pat.text value :=
   matches_eq_wildmatch pat (parsePattern_wf raw mayAlter pat h) value m
+
+/-- End to end: for every pattern produced by `parse::pattern`, `Pattern::matches` (shortcuts included)
+gives git's `wildmatch` answer on the pattern text — every mode, every NUL-free value, pattern text
+outside the known IGNORE_CASE deviation and with fewer than 64 star bytes. -/
+theorem matches_eq_git (raw : Bytes) (mayAlter : Bool) (pat : Pattern)
+    (h : parsePattern raw mayAlter = some pat) (value : Bytes) (m : Mode) (hok : PatOk m pat.text)
+    (hcnt : (pat.text.filter (· == 42)).length < 64) (hv : NoNul value) :
+    pat.matches value m = Spec.C36.wildmatch (flagsOf m) pat.text value := by
+  rw [shortcuts_sound raw mayAlter pat h value m]
+  exact full_modulo_icase m pat.text value hok hv hcnt
 
 -- non-vacuity: the three shortcut shapes are produced by the parser
 example : (parsePattern [42, 46, 114, 115] true).map (·.mode.endsWith) = some true := by decide +kernel
